@@ -534,6 +534,18 @@ impl KeyIdMethod {
 	}
 }
 
+/// Checks that a date can be encoded: `GeneralizedTime` (and the conversion to UTC that
+/// precedes encoding) only covers the UTC years 0 to 9999.
+fn check_time(dt: OffsetDateTime) -> Result<(), Error> {
+	const MIN: i64 = -62_167_219_200; // 0000-01-01T00:00:00Z
+	const MAX: i64 = 253_402_300_799; // 9999-12-31T23:59:59Z
+	if (MIN..=MAX).contains(&dt.unix_timestamp()) {
+		Ok(())
+	} else {
+		Err(Error::Time)
+	}
+}
+
 fn dt_strip_nanos(dt: OffsetDateTime) -> OffsetDateTime {
 	// Set nanoseconds to zero
 	// This is needed because the GeneralizedTime serializer would otherwise
